@@ -49,16 +49,35 @@ def run(ctx):
                     src_ok = True
         ctx.ob('C21-D1', VI, 'update-manifest action check', 'iterates Claim::action_assertions(claim)', src_ok)
         # parent_count switch: 0 => wrongParents ; >1 => invalid.  parent_count = filter(ParentOf).count()
-        pc = [l for l, n in fn.varnames.items() if n == 'parent_count']
-        ctx.ob('C21-D1', VI, 'parent_count', 'variable present', bool(pc))
-        for l in pc:
-            term = T.local_term(fn, l)
-            srcs = ' '.join(T.call_term(fn, d[1]) for d in fn.defs.get(l, ()) if d[0] == 'call')
-            ctx.ob('C21-D1', VI, 'parent_count', 'count of ingredient assertions with relationship ParentOf', 'Iterator::count' in srcs and 'ingredient_assertions' in srcs, detail=srcs[:200])
+        # the parent count is identified by how it is computed, not by its name: a local defined by `..ingredient_assertions()..filter(ParentOf)..count()`,
+        # inline or through a private helper of the crate whose body does that
+        def counts_parents(term_or_fn):
+            return 'Iterator::count' in term_or_fn and 'ingredient_assertions' in term_or_fn
+        pc = []
+        for l in range(len(fn.locals)):
+            for d in fn.defs.get(l, ()):
+                if d[0] != 'call':
+                    continue
+                term = T.call_term(fn, d[1])
+                ok_inline = counts_parents(term)
+                ok_helper = False
+                for tgt in prog.callee_targets(fn.B[d[1]]['t']):
+                    if prog.has(tgt) and 'claim::' in tgt:
+                        hf = prog.fn(tgt)
+                        body = ' '.join(T.call_term(hf, b2) for b2, t2 in hf.calls())
+                        if counts_parents(body) and hf.d.get('ret') in ('usize', 'u32', 'u64'):
+                            ok_helper = True
+                if (ok_inline and fn.local_ty(l) in ('usize', 'u32', 'u64')) or ok_helper:
+                    pc.append(l)
+        # named user variable preferred (temporaries holding the same value are copies)
+        named = [l for l in pc if not fn.name_of(l).startswith('_')]
+        pc = named or pc
+        PCN = set(fn.name_of(l) for l in pc)
+        ctx.ob('C21-D1', VI, 'parent count', 'computed as the number of ingredient assertions with relationship ParentOf (inline or in a private helper)', bool(pc), detail=str(sorted(PCN)))
         eng, hits = ret_hits(fn, maxstates=1) if False else (None, None)
         # path rule via engine on the switch over parent_count inside update branch
         from lib import Engine
-        eng = Engine(fn, track_calls=lambda bi, t: g_upd.matches_call(fn, bi, t), track_atom=lambda a: (a[0] == 'local' and fn.name_of(a[1]) == 'parent_count') or (a[0] in ('cmp',) and 'parent_count' in T.atom_term(fn, a)))
+        eng = Engine(fn, track_calls=lambda bi, t: g_upd.matches_call(fn, bi, t), track_atom=lambda a: (a[0] == 'local' and fn.name_of(a[1]) in PCN) or (a[0] in ('cmp',) and any(n_ in T.atom_term(fn, a) for n_ in PCN)))
 
         def mon(bi, b, env, facts, ms):
             # ms: (seen_wrongParents, seen_invalid)
@@ -82,7 +101,7 @@ def run(ctx):
             if not upd:
                 continue
             for a, v in facts.items():
-                if a[0] == 'local' and fn.name_of(a[1]) == 'parent_count':
+                if a[0] == 'local' and fn.name_of(a[1]) in PCN:
                     if v == 0:
                         n0 += 1
                         if not w and cls not in ('Err', 'residual'):
